@@ -379,7 +379,7 @@ func MatrixPackages() []*Package {
 					b.WriteString("\t" + p.setup + "\n")
 				}
 				b.WriteString("\t" + body + "\n}\n\n")
-				for i, a := range []uint64{0, 5} {
+				for i, a := range []uint64{0, 5, 255, 4294967295, 9223372036854775808, 18446744073709551615} {
 					cn := fmt.Sprintf("case_%s_%s_%d", p.id, op.id, i)
 					call := fmt.Sprintf("%s(%d)", fn, a)
 					if p.id == "param" {
